@@ -40,8 +40,8 @@ Max(a, b) == IF a >= b THEN a ELSE b
 InjSeqs(S, k) == {s \in [1..k -> S] : \A a, b \in 1..k : a # b => s[a] # s[b]}
 
 (* every mode has a non-zero component on some reference sensor (precondition of the properties) *)
-Observable(s, refSensors) == \A k \in s : \E c \in refSensors : c \notin ZeroAt[k]
-Visible(s, sensors) == \A k \in s : \E c \in sensors : c \notin ZeroAt[k]
+Observable(s, refSensors) == \A k \in s : (refSensors \ ZeroAt[k]) # {}     \* (no \E: TLC would branch on every witness)
+Visible(s, sensors) == \A k \in s : (sensors \ ZeroAt[k]) # {}
 
 (* Observability index of the modal model seen at a list of sensors.  Sensor c sees 2 * Vis(c) eigenvalues (the     *)
 (* conjugate pairs of the modes whose shape does not vanish there) and contributes min(k, 2 Vis(c)) independent    *)
@@ -54,9 +54,8 @@ RankAfter(k, s, sensors) ==
     IN F[Len(sensors)]
 ObsIndex(s, sensors) ==
     LET n == 2 * Cardinality(s)
-    IN IF \E k \in 1..n : RankAfter(k, s, sensors) >= n
-       THEN CHOOSE k \in 1..n : RankAfter(k, s, sensors) >= n /\ \A j \in 1..(k - 1) : RankAfter(j, s, sensors) < n
-       ELSE n + 1
+        ok == {k \in 1..n : RankAfter(k, s, sensors) >= n}
+    IN IF ok = {} THEN n + 1 ELSE CHOOSE k \in ok : \A j \in ok : k <= j
 (* smallest block-row count the properties admit: observability index + 1 on the output side, and enough block   *)
 (* columns for the reference sensors to span the modal space on the other side                                    *)
 MinBrFor(s, sensors, refSensors) == Max(ObsIndex(s, sensors) + 1, ObsIndex(s, refSensors))
